@@ -182,7 +182,7 @@ def cbmc_cmd(q, gb, witness, trace):
     if q.depth:
         cmd += ["--depth", str(q.depth)]
     if witness:
-        cmd += ["--no-standard-checks", "--stop-on-fail"]
+        cmd += ["--no-standard-checks"]
     else:
         cmd += ["--unwinding-assertions", "--pointer-overflow-check",
                 "--undefined-shift-check", "--signed-overflow-check"]
@@ -304,7 +304,7 @@ def cbmc_cmd(q, gb, witness, trace):
     if q.depth:
         cmd += ["--depth", str(q.depth)]
     if witness:
-        cmd += ["--no-standard-checks", "--stop-on-fail"]
+        cmd += ["--no-standard-checks"]
     else:
         cmd += ["--unwinding-assertions", "--pointer-overflow-check",
                 "--undefined-shift-check", "--signed-overflow-check"]
@@ -383,7 +383,7 @@ def _compile_native(q, workdir, tag):
     units = q.units if q.native_units is None else q.native_units
     srcs += unit_paths(units)
     cmd = ["gcc", "-g", "-O0", "-w", "-fsanitize=address,undefined", "-fno-sanitize-recover=undefined",
-           "-DVERIF_NATIVE", "-o", exe] + cc_common(q, False) + srcs + q.native_libs
+           "-DVERIF_NATIVE", "-Wl,--unresolved-symbols=ignore-all", "-no-pie", "-o", exe] + cc_common(q, False) + srcs + q.native_libs
     rc, out, wall, st = run_cmd(cmd, 300)
     if rc != 0:
         return None, "native compile failed:\n%s\n%s" % (" ".join(cmd), out)
@@ -410,7 +410,12 @@ def replay_native(q, workdir, vals, replay_path):
         return "not_reproduced", out[-3000:]
     if rc == 77:
         return "assume", out[-3000:]
-    return "reproduced", out[-4000:]
+    # a replay counts only when the harness oracle, mtbl's own assert (where that is a
+    # violation) or a sanitizer reports -- never merely because the program failed to run
+    if ("REPLAY: VIOLATED" in out or "ERROR: AddressSanitizer" in out or "runtime error:" in out
+            or "ERROR: LeakSanitizer" in out):
+        return "reproduced", out[-4000:]
+    return "error", "native run ended rc=%s without an oracle/sanitizer report\n%s" % (rc, out[-3000:])
 
 
 def run_query(q, workdir, replays_dir, prop_id):
@@ -506,9 +511,9 @@ def run_query(q, workdir, replays_dir, prop_id):
             rcw, outw, wallw, stw = run_cmd(cmdw, q.timeout, q.mem_gb)
             if stw != "ok":
                 res["witness"] = stw
-            elif "VERIFICATION FAILED" in outw and "WITNESS reached" in outw:
+            elif re.search(r"WITNESS reached: FAILURE", outw):
                 res["witness"] = "reached"
-            elif "VERIFICATION SUCCESSFUL" in outw:
+            elif re.search(r"WITNESS reached: SUCCESS", outw) or "VERIFICATION SUCCESSFUL" in outw:
                 res["witness"] = "unreachable"
             else:
                 res["witness"] = "unknown"
